@@ -5,7 +5,7 @@
     for every instance of the external functions (bcrypt, URL splitting,
     address parsing, data directory), which enter as the oracle record [O]. *)
 From Coq Require Import List ZArith String.
-From AGH Require Import Model.Migrate Proofs.Migrate Proofs.MigrateFrame.
+From AGH Require Import Model.Migrate Proofs.Migrate Proofs.MigrateFrame Proofs.MigrateSim.
 Import ListNotations.
 Local Open Scope string_scope.
 Local Open Scope Z_scope.
@@ -55,6 +55,39 @@ Theorem C13_frame : forall O top target m' k,
   get k m' = get k (input_map top).
 Proof. exact migrate_frame. Qed.
 Print Assumptions C13_frame.
+
+(** Path independence, for every document, every target and every split point
+    [k] strictly between the document's version and the target: upgrading to
+    [k], writing the file, reading it back ([norm_obj]: Go's dynamic types are
+    erased) and upgrading on gives the same file as upgrading in one run.  All
+    29 steps are covered. *)
+Theorem C13_path_independent : forall O top t k a,
+  migrate O top t = ONew a -> version_of (input_map top) < k < t ->
+  exists b c, migrate O top k = ONew b /\
+              migrate O (Some (norm_obj b)) t = ONew c /\
+              norm_obj c = norm_obj a.
+Proof. exact migrate_path_independent. Qed.
+Print Assumptions C13_path_independent.
+
+(** The same at the level of the step table, for any in-memory tree (typed
+    values anywhere) and any range of steps: running the steps on the tree or
+    on its re-read form leads to the same file. *)
+Theorem C13_steps_respect_reread : forall O cur tgt m a,
+  upgrade O cur tgt m = Ok a ->
+  exists c, upgrade O cur tgt (norm_obj m) = Ok c /\ norm_obj c = norm_obj a.
+Proof. exact upgrade_respects_reread. Qed.
+Print Assumptions C13_steps_respect_reread.
+
+(** Non-vacuity of the split: version 22 to 29 through a file at version 28,
+    where the in-memory tree holds a typed upstream mode and the file plain text. *)
+Example C13_split_satisfiable :
+  exists a b c,
+    migrate oracles0 (Some doc22) 29 = ONew a /\ migrate oracles0 (Some doc22) 28 = ONew b /\
+    migrate oracles0 (Some (norm_obj b)) 29 = ONew c /\ norm_obj c = norm_obj a /\
+    get "dns" b = Some (VObj [("upstream_mode", VMode MParallel)]) /\
+    get "dns" (norm_obj b) = Some (VObj [("upstream_mode", VStr "parallel")]).
+Proof. exact doc22_split. Qed.
+Print Assumptions C13_split_satisfiable.
 
 (** Non-vacuity: a concrete version-22 document upgrades to 29, keeps a key no
     step concerns; an ill-typed one fails; a null document upgrades. *)
